@@ -12,6 +12,7 @@ pub const T_SOA: u16 = 6;
 pub const T_MX: u16 = 15;
 pub const T_TXT: u16 = 16;
 pub const T_AAAA: u16 = 28;
+pub const T_DNAME: u16 = 39;
 pub const T_OPT: u16 = 41;
 pub const T_DS: u16 = 43;
 pub const T_RRSIG: u16 = 46;
